@@ -400,6 +400,17 @@ def dag_cases(scratch):
               ("diamond3x2", diamond(3, 2)), ("diamond14x2", diamond(14, 2)), ("diamond24x2", diamond(24, 2)),
               ("diamond64x2", diamond(64, 2)), ("diamond12x8", diamond(12, 8)),
               ("skip30", [[("a", min(i + 1, 30)), ("b", min(i + 2, 30))] for i in range(30)] + [[]])]
+    # comb n: n one-child group B-tree nodes sharing ONE symbol table node of n entries (classic format, cache type 1): before
+    # /repo 77428c1 Open built n*n+1 groups without a single counted load (632 KB file -> 10^6 groups, 450 MB resident)
+    try:
+        from props import c07load
+        for n in (300, 1000):
+            p = os.path.join(d, "comb%d.h5" % n)
+            with open(p, "wb") as f:
+                f.write(c07load.comb(n).image())
+            out.append(dict(base=p, patches=[], gen="dag", what="comb%d: %d B-tree nodes share one symbol table node of %d entries" % (n, n, n)))
+    except Exception as e:      # the loader tie reports its own problems; this family is an extra
+        out.append(dict(base=os.path.join(d, "missing"), patches=[], gen="dag", what="comb family unavailable: %r" % (e,)))
     for name, g in shapes:
         for ct in (1, 0):
             p = os.path.join(d, "%s_cache%d.h5" % (name, ct))
